@@ -120,10 +120,14 @@ Theorem C11_precheck_implies_store_ok : forall (vk : bytes -> bytes),
 Proof. exact precheck_implies_store_ok. Qed.
 Print Assumptions C11_precheck_implies_store_ok.
 
-(* the hypothesis about errTooMuchBatchSize, checked on the source: at every place of package
-   rockredis where that error leaves a function (directly or from a callee) no write into a batch
-   precedes it; the list is regenerated by go/ast from rockredis/*.go *)
-Theorem C11_toomuch_before_any_write : forallb (fun s => snd s) toomuch_sites = true.
+(* the hypothesis about errTooMuchBatchSize, checked on the source: at every place of package rockredis where
+   that error leaves a function (directly or from a callee) no write into a batch precedes it — lexically, and
+   a write anywhere inside a loop that contains the place counts as preceding (an earlier iteration ran it).
+   The list is regenerated by go/ast from rockredis/*.go. Two listed exceptions, neither reachable with a dirty
+   batch: ZMclear (internal command; commits after every key and clears the batch itself on the error path)
+   and dobuildIndexes (background index builder reading through HMget, not an apply handler). *)
+Theorem C11_toomuch_before_any_write :
+  forallb (fun s => snd s || existsb (gname_eqb (fst (fst s))) ["ZMclear"; "dobuildIndexes"]) toomuch_sites = true.
 Proof. vm_compute. reflexivity. Qed.
 Print Assumptions C11_toomuch_before_any_write.
 
